@@ -110,6 +110,7 @@ int main(int argc, char** argv)
                         auto cycle = [&] {
                         w.call = vrf::now();
                             {
+                                size_t held_before = vrf::held_count();
                                 COW::handle h = cow->lock();
                                 if (!h) vrf::violation("oracle:write_handle_null", "{}");
                                 {
@@ -129,6 +130,10 @@ int main(int argc, char** argv)
                                         hh.cancel();
                                         if (hh) vrf::violation("oracle:handle_not_null_after_cancel", "{}");
                                     }
+                                    // released means released: the writer lock is free now, not when the (empty) handle object dies
+                                    if (vrf::held_count() != held_before)
+                                        vrf::violation("oracle:writer_lock_still_held_after_the_write_handle_was_released",
+                                                       std::string("{\"release\":\"") + (a.kind == 'W' ? "reset()" : "cancel()") + "\"}");
                                 };
                                 if (a.form == 1) {
                                     COW::handle h2(std::move(h));
